@@ -41,6 +41,8 @@ var (
 		1e10, 1e11, 1e12, 1e13, 1e14, 1e15, 1e16, 1e17, 1e18, 1e19,
 	}
 	pow10u64Len = len(pow10u64)
+	// maxUint64Literal is 2^64-1 written with pow10u64Len digits.
+	maxUint64Literal = "18446744073709551615"
 )
 
 func (d *uintDecoder) parseUint(b []byte) (uint64, error) {
@@ -53,6 +55,10 @@ func (d *uintDecoder) parseUint(b []byte) (uint64, error) {
 		c := uint64(b[i]) - 48
 		digitValue := pow10u64[maxDigit-i-1]
 		sum += c * digitValue
+	}
+	// only a 20-digit literal can exceed 2^64-1; compare it with the largest one that fits.
+	if maxDigit == pow10u64Len && string(b) > maxUint64Literal {
+		return 0, fmt.Errorf("number overflows uint64")
 	}
 	return sum, nil
 }
